@@ -15,6 +15,9 @@ class Op:
         lab = self.label
         if lab == "ok":
             self.kind, self.klass, self.ra = "ok", None, False
+        elif lab == "timeout":
+            # the operation itself raised the builtin TimeoutError (classified TRANSIENT)
+            self.kind, self.klass, self.ra = "x", "T", False
         elif lab[:2] in ("x:", "r:"):
             self.kind = lab[0]
             k, _, ra = lab[2:].partition("+")
